@@ -274,6 +274,8 @@ let rec judge_traces ?(k2 = false) c obs =
         let wraps = model_idx_crash !reqno in
         if to_string (L (impl_events tr)) = to_string (L exp) && to_string esc = "none" then go rqs' obs'
         else if k2 && wraps then "bad next-many-cursor-wraps chain=" ^ string_of_int (List.length chain) ^ " nexts=" ^ string_of_int total_next
+        else if List.length chain >= 128 && impl_events tr = [] then
+          "bad chain-of-128-or-more-handlers-runs-nothing chain=" ^ string_of_int (List.length chain)
         else if List.length chain > 63 then "bad chain-longer-than-limit"
         else "bad onion-order got=" ^ to_string (L (impl_events tr)) ^ " esc=" ^ to_string esc ^ " expected=" ^ to_string (L exp)
       end
